@@ -1459,3 +1459,93 @@ Proof.
   apply spells_lit; [|apply IH; assumption].
   apply negb_true_iff in Hc. apply N.eqb_neq. assumption.
 Qed.
+
+(* ===================== host folding as Go does it (non-ASCII, invalid UTF-8) ================== *)
+Lemma go_lower_ascii s : forallb (fun c => c <? 128) s = true -> go_lower s = to_lower s.
+Proof. intros H. unfold go_lower. rewrite H. reflexivity. Qed.
+
+Theorem route_u_fold_only sites xf hh hh' up proto :
+  lower_key (strip_port hh ++ up) = lower_key (strip_port hh' ++ up) ->
+  tserve_u sites xf hh up proto = tserve_u sites xf hh' up proto.
+Proof. intros H. unfold tserve_u. rewrite H. reflexivity. Qed.
+
+Theorem route_u_declared_fold_only sites sites' xf hh up proto :
+  map (fun s => (lower_key (fst s), snd s)) sites = map (fun s => (lower_key (fst s), snd s)) sites' ->
+  tserve_u sites xf hh up proto = tserve_u sites' xf hh up proto.
+Proof. intros H. unfold tserve_u. rewrite H. reflexivity. Qed.
+
+(* "the exact name" is the name after Go's folding: two host names that differ in a byte which is
+   no letter at all are one name when both bytes are ill-formed UTF-8 *)
+Lemma invalid_utf8_hosts_collide :
+  exists sites hh up,
+    sites = [([97; 255; 46; 99; 111; 109], 1)] /\ hh = [97; 254; 46; 99; 111; 109] /\
+    to_lower hh <> to_lower [97; 255; 46; 99; 111; 109] /\
+    tserve_u sites [] hh up 1 = Site 1 [SLASH].
+Proof.
+  exists [([97; 255; 46; 99; 111; 109], 1)], [97; 254; 46; 99; 111; 109], [SLASH].
+  repeat split; try reflexivity. vm_compute. discriminate.
+Qed.
+
+(* on ASCII host text the explicit Go folding changes nothing: tserve_u is tserve *)
+Lemma lower_byte_slash c : (lower_byte c =? SLASH) = (c =? SLASH).
+Proof. apply lower_byte_fix. reflexivity. Qed.
+
+Lemma lower_byte_idem c : lower_byte (lower_byte c) = lower_byte c.
+Proof.
+  unfold lower_byte. destruct ((65 <=? c) && (c <=? 90)) eqn:E; [|rewrite E; reflexivity].
+  apply andb_true_iff in E as [E1 E2]. apply N.leb_le in E1, E2.
+  destruct ((65 <=? c + 32) && (c + 32 <=? 90)) eqn:E'; [|reflexivity].
+  apply andb_true_iff in E' as [_ E3]. apply N.leb_le in E3. lia.
+Qed.
+
+Lemma to_lower_idem s : to_lower (to_lower s) = to_lower s.
+Proof. unfold to_lower. rewrite map_map. apply map_ext. intros c. apply lower_byte_idem. Qed.
+
+Lemma upto_slash_lowered : forall k,
+  upto_slash (to_lower (upto_slash k) ++ skipn (length (upto_slash k)) k) = to_lower (upto_slash k).
+Proof.
+  induction k as [|c r IH]; [reflexivity|]. cbn [upto_slash].
+  destruct (c =? SLASH) eqn:E.
+  - cbn [to_lower map length skipn app upto_slash]. rewrite E. reflexivity.
+  - unfold to_lower in *. cbn [map length skipn app upto_slash]. rewrite lower_byte_slash, E, IH. reflexivity.
+Qed.
+
+Lemma after_slash_lowered : forall k,
+  after_slash (to_lower (upto_slash k) ++ skipn (length (upto_slash k)) k) = after_slash k.
+Proof.
+  induction k as [|c r IH]; [reflexivity|]. cbn [upto_slash].
+  destruct (c =? SLASH) eqn:E.
+  - cbn [to_lower map length skipn app after_slash]. rewrite E. reflexivity.
+  - unfold to_lower in *. cbn [map length skipn app after_slash]. rewrite lower_byte_slash, E, IH. reflexivity.
+Qed.
+
+Definition ascii_host (k : bytes) : bool := forallb (fun c => c <? 128) (upto_slash k).
+
+Lemma split_host_path_lower_key k :
+  ascii_host k = true -> split_host_path (lower_key k) = split_host_path k.
+Proof.
+  intros H. rewrite !split_host_path_addr. unfold lower_key. rewrite go_lower_ascii by exact H.
+  unfold addr_host, addr_path. rewrite upto_slash_lowered, after_slash_lowered.
+  unfold spec_norm_host. rewrite to_lower_idem. reflexivity.
+Qed.
+
+Lemma tinsert_lower_key t k s : ascii_host k = true -> tinsert t (lower_key k) s = tinsert t k s.
+Proof. intros H. unfold tinsert. rewrite split_host_path_lower_key by exact H. reflexivity. Qed.
+
+Lemma tbuild_lower_keys : forall sites t,
+  forallb (fun s => ascii_host (fst s)) sites = true ->
+  fold_left (fun t s => tinsert t (fst s) (snd s)) (map (fun s => (lower_key (fst s), snd s)) sites) t =
+  fold_left (fun t s => tinsert t (fst s) (snd s)) sites t.
+Proof.
+  induction sites as [|x sites IH]; intros t H; [reflexivity|].
+  cbn [forallb] in H. apply andb_true_iff in H as [Hx Hr].
+  cbn [map fold_left fst snd]. rewrite tinsert_lower_key by exact Hx. apply IH. exact Hr.
+Qed.
+
+Theorem route_u_ascii sites xf hh up proto :
+  forallb (fun s => ascii_host (fst s)) sites = true -> ascii_host (strip_port hh ++ up) = true ->
+  tserve_u sites xf hh up proto = tserve (tbuild sites) xf hh up proto.
+Proof.
+  intros Hs Hh. unfold tserve_u, tserve, tbuild. rewrite tbuild_lower_keys by exact Hs.
+  unfold ttrie_match. rewrite split_host_path_lower_key by exact Hh. reflexivity.
+Qed.
